@@ -136,7 +136,7 @@ class Model:
 
     # ------------------------------------------------------------------ R1: targets of a request
     def request_immediate(self, dest):
-        node = dest; phase = 1; via_ortho = False
+        node = dest; phase = 1; via_ortho = False; deferred = None
         while self.n[node]['parent'] >= 0:
             par = self.n[node]['parent']; prong = self.n[node]['prong']
             if self.kind(par) == 'C':
@@ -144,6 +144,7 @@ class Model:
                     if via_ortho and self.act[par] == prong and 'ortho-destination-reenters-whole-region' not in self.dev:
                         # an active orthogonal region on the way is addressed by its prong bits only
                         if self.want[par] is not None and self.want[par] != prong: self.want[par] = None
+                        deferred = (par, prong)      # needed after all when an ancestor ends up (re-)entering this region
                     else:
                         self.want[par] = prong
                     phase = 2
@@ -151,6 +152,7 @@ class Model:
                     self.remain.add(par)
                     if (self.want[par] is not None and self.want[par] != prong) or self.act[par] != prong:
                         self.want[par] = prong
+                        if deferred is not None and 'ortho-destination-lost-on-reentry' not in self.dev: self.want[deferred[0]] = deferred[1]; deferred = None
                     else:
                         phase = 3
                 else:
